@@ -491,6 +491,57 @@ func checkC20(e *Engine, r *Report) {
 		})
 		r.MinInstances("stores of the CPU request", nReq, 1)
 		r.MinInstances("stores of the CPU limit", nLim, 1)
+		// the reconstruction is made for every container that enters the cache: createContainer reaches it on every
+		// successful return
+		if cc := e.Fn(pkgCA, "cache.createContainer"); cc != nil {
+			reaches := func(in ssa.Instruction) bool {
+				if _, ok := in.(ssa.CallInstruction); !ok {
+					return false
+				}
+				return e.CallReaches(in, fset(est), 3)
+			}
+			p := FindPath(PathQuery{Fn: cc, Block: reaches, Target: func(in ssa.Instruction) bool {
+				ret, ok := in.(*ssa.Return)
+				return ok && e.maySucceed(ret)
+			}})
+			r.Check("R9:requirements-estimated-at-creation", "R9 wiring", "every container successfully entered into the cache has had its resource requirements reconstructed", e.Pos(cc.Pos()), cc, p == nil, e.pathString(p), true)
+		} else {
+			r.Undecided("R9:requirements-estimated-at-creation", "R9 wiring", "cache.createContainer exists", "-", nil, "not found")
+		}
+		// … and a positive reconstructed value IS recorded: with the decoder's result positive, no return is reached
+		// without the corresponding store (for the limit: on the paths that consult the quota at all)
+		for _, t := range []struct {
+			key, field, what string
+			dec            *ssa.Function
+		}{{"request", "Requests", "CPU request", dec}, {"limit", "Limits", "CPU limit", decQ}} {
+			var calls []ssa.Value
+			AllInstrsOf(est, func(in ssa.Instruction) {
+				if v, ok := in.(ssa.Value); ok && isCallVia(v, t.dec) {
+					calls = append(calls, v)
+				}
+			})
+			for _, cv := range calls {
+				cv := cv
+				positive := func(cond ssa.Value) (bool, bool) {
+					_, y, op, ok := cmpOriented(cond, func(v ssa.Value) bool { return unspill(v) == cv })
+					if !ok || !isConstInt(y, 0) {
+						return false, false
+					}
+					return cmpZero(sgPos, op)
+				}
+				records := func(in ssa.Instruction) bool {
+					mu, ok := in.(*ssa.MapUpdate)
+					if !ok {
+						return false
+					}
+					f, _ := loadedField(mu.Map)
+					key, isK := constString(mu.Key)
+					return f != nil && f.Name() == t.field && isK && key == "cpu" && derives(mu.Value, func(x ssa.Value) bool { return x == cv })
+				}
+				p := FindPath(PathQuery{Fn: est, From: cv.(ssa.Instruction), Assume: positive, Block: records, Target: isRet})
+				r.Check("R9:positive-"+t.key+"-is-recorded", "R9 wiring", "a positive reconstructed "+t.what+" is recorded in the container's resource requirements", e.InstrPos(cv.(ssa.Instruction)), est, p == nil, e.pathString(p), true)
+			}
+		}
 	}
 	if t := aliases["OomAdjToMemReq"]; t != nil {
 		if cs := callsVia(t); len(cs) == 1 {
